@@ -78,6 +78,15 @@ var checks = []Check{
 		Assumptions: []string{"LWW timestamps are distinct in every judged run (ties are outside the statement)", "state equality is judged observationally (Read now and after identical continuations), so representation differences without observable effect are not reported"},
 		MustProbe:   []string{"kind_GCounter", "kind_AWORSet", "kind_LWWSet", "has_remove", "equal_knowledge_pair"}, MinRunsForProbes: 2000,
 	},
+	{
+		ID: "C01", Pkg: "checks/c01", Instr: coreInstr,
+		QuickRuns: 60000, ThoroughRuns: 3000000, QuickBudgetS: 60, ThoroughBudgetS: 1200, ShrinkS: 45,
+		Rule: "one run = a program of 1-6 critical sections x 1-6 operations over 1-5 real resources whose kinds are drawn from: archetype local, cell, indexed cell, IncMap, HashMap, InputChan, OutputChan, LocalShared, Persistent(LocalShared) on in-memory badger, FileSystem on the simulated disk, TCP mailbox to a sink archetype on another node, TCP mailbox fed by a source archetype; attempts fail at drawn positions (false await after k operations; a resource refusing its n-th read/write/index/pre-commit; real read time-outs) 1-2 times before succeeding; every read is compared with a reference model (last committed state + own writes; inputs re-offered in order), outputs/deliveries/files/database compared at the end; non-trivial = at least one aborted attempt and one checked read; distinct = distinct interleaving digests",
+		Real:        realU,
+		Stub:        append([]string{"peers of mailbox resources: harness-built source/sink archetypes on the real runtime and real TCP mailboxes", "disk for FileSystem: verif/sim/sfs in-memory files; badger runs in its in-memory mode"}, stubU...),
+		Assumptions: []string{"resource kinds not in the mix here (relaxed mailboxes, CRDT, 2PC, nested archetype, raft PersistentLog/CustomInChan) get their abort/commit atomicity checked by C06/C11/C13/C16 scenarios", "SingleOutputChan is not transactional by contract and is exercised in C06 only"},
+		MustProbe:   []string{"attempt_aborted", "abort_after_write_3_resources", "abort_in_read", "kind_mbox_out", "kind_mbox_in", "kind_file", "kind_incmap", "kind_shared"}, MinRunsForProbes: 2000,
+	},
 }
 
 func findCheck(id string) *Check {
